@@ -80,6 +80,41 @@ pub const R_NET: &[&str] = &[
     "||example.com*foo/bar|",
 ];
 
+/// The rule cube: pattern shapes x option sets (x exception). Unlike R_NET it is not hand-picked
+/// per known shortcut: every anchor mode is combined with every body shape over the tokens of the
+/// URL universe, and every option kind the matcher looks at is present once.
+pub const CUBE_PATTERNS: &[&str] = &[
+    // no anchor
+    "ads", "/ads/foo", "ads/foo", "foo/bar", "ads*bar", "ads^", "^ads^", "ads^foo", "/ads", "ads.", ".net/ads", "=1", "?x", "_foo", "ads*", "*ads", "*/foo/*", "a", "/",
+    // right anchor
+    "bar|", "/foo/bar|", "ads^|", ".js|",
+    // left anchor
+    "|https://ads.net/ads", "|https://", "|http://ads.net", "|https://ads.net/|", "|https://*.ads.net/", "|ws",
+    // hostname anchor
+    "||ads.net^", "||ads.net", "||ads.net/", "||ads.net/ads", "||ads.net*ads", "||ads.net^ads", "||ads.net^*ads", "||ads.net/ads|", "||ads.net^|", "||net^", "||a.ads.net^", "||ads.net/*/bar",
+    "||tracker.co.uk^", "||co.uk^", "||example.com/foo/bar", "||ads.net:", "||ads.net?", "||ads.", "||1.2.3.4^", "||1.2.3.4/ads",
+    // full regex and empty
+    "/ads[a-z]*\\/bar/", "/^https?:\\/\\/ads\\./", "/\\/ADS/", "*", "",
+];
+
+pub const CUBE_OPTIONS: &[&str] = &[
+    "", "script", "~script", "image,script", "document", "3p", "1p", "domain=example.com", "domain=~example.com", "domain=example.com|ads.net", "important", "tag=t1", "match-case",
+    "xhr,3p", "redirect=a", "csp=d1", "removeparam=utm", "websocket", "~websocket,~image",
+];
+
+/// The rule text for one cell of the cube, or None for cells that make no sense (an empty pattern
+/// without options, `$important` on an exception, a removeparam exception).
+pub fn cube_rule(p: usize, o: usize, exception: bool) -> Option<String> {
+    let (pat, opt) = (CUBE_PATTERNS[p], CUBE_OPTIONS[o]);
+    if pat.is_empty() && opt.is_empty() {
+        return None;
+    }
+    if exception && (opt == "important" || opt.starts_with("removeparam")) {
+        return None;
+    }
+    Some(format!("{}{}{}{}", if exception { "@@" } else { "" }, pat, if opt.is_empty() { "" } else { "$" }, opt))
+}
+
 /// Hosts-format lines (added through a second `add_filters` call with `FilterFormat::Hosts`).
 pub const R_HOSTS: &[&str] = &["127.0.0.1 ads.net", "a.ads.net"];
 
